@@ -63,6 +63,9 @@ pub enum Role {
         words2: [Word; 4],
         target2: Option<usize>,
     },
+    /// root only: leaves exactly `stack` words on the stack and `mem` words in memory (sizes at
+    /// and next to the limits: what a child inherits from its parents may fill it completely)
+    Fill { stack: usize, mem: usize },
     /// fails on purpose
     Fail(u8),
     /// leaf: digest of the input must equal predicate data slot `slot`
@@ -92,6 +95,9 @@ pub struct APred {
     pub dag: Dag,
     pub roles: Vec<Role>,
     pub n_slots: usize,
+    /// `alias[b] = Some(a)`: node `b` carries the very same program as node `a` (same bytes,
+    /// same address): nothing says a program belongs to one node only
+    pub alias: Vec<Option<usize>>,
 }
 
 #[derive(Clone, Debug)]
@@ -138,6 +144,8 @@ pub struct GenCfg {
     /// at least two solutions solving two different predicates, and a PredicateExists node in
     /// every predicate (so that lookups can be aimed at solutions that exist)
     pub pex_heavy: bool,
+    /// a set of exactly this many solutions (the documented maximum is 100)
+    pub exact_sols: Option<usize>,
 }
 
 impl GenCfg {
@@ -163,6 +171,7 @@ impl GenCfg {
             soup: rng.chance(1, 8),
             pex: rng.chance(1, 3),
             pex_heavy: false,
+            exact_sols: if rng.chance(1, 120) { Some(100) } else { None },
         }
     }
 }
@@ -244,7 +253,7 @@ pub fn gen_abstract(rng: &mut Rng, cfg: &GenCfg) -> Abstract {
         }
     }
 
-    let mut n_sols = 1 + rng.usize(cfg.max_sols);
+    let mut n_sols = cfg.exact_sols.unwrap_or(1 + rng.usize(cfg.max_sols));
     let mut n_preds = 1 + rng.usize(n_sols.min(3));
     if cfg.pex_heavy {
         n_sols = n_sols.max(2);
@@ -388,6 +397,10 @@ pub fn gen_abstract(rng: &mut Rng, cfg: &GenCfg) -> Abstract {
                 }
             } else {
                 match rng.below(14) {
+                    13 if dag.parents(a).is_empty() && rng.chance(1, 3) => {
+                        let (st, me) = *rng.pick(&[(4096usize, 0usize), (4095, 0), (2048, 0), (0, 10240), (0, 10239), (0, 5120), (2048, 5120)]);
+                        Role::Fill { stack: st, mem: me }
+                    }
                     0 | 1 | 2 if cfg.post_reads => Role::Read(read_spec(rng, true, ci, &sols)),
                     3 | 4 => Role::Read(read_spec(rng, false, ci, &sols)),
                     5 | 6 if cfg.compute => {
@@ -424,11 +437,23 @@ pub fn gen_abstract(rng: &mut Rng, cfg: &GenCfg) -> Abstract {
             };
             roles.push(role);
         }
+        // one node in eight predicates carries the same program as another node of its kind
+        let mut alias: Vec<Option<usize>> = vec![None; n];
+        if n >= 2 && rng.chance(1, 8) {
+            let a = (0..n).find(|a| matches!(&roles[*a], Role::Read(s) if s.post) || matches!(&roles[*a], Role::ReadCheck { spec, .. } if spec.post)).unwrap_or(rng.usize(n));
+            let same_kind: Vec<usize> = (0..n).filter(|b| *b != a && dag.is_leaf(*b) == dag.is_leaf(a)).collect();
+            if !same_kind.is_empty() {
+                let b = *rng.pick(&same_kind);
+                roles[b] = roles[a].clone();
+                alias[b] = Some(a);
+            }
+        }
         preds.push(APred {
             contract: contracts[ci],
             dag,
             roles,
             n_slots,
+            alias,
         });
     }
 
@@ -442,6 +467,7 @@ pub fn gen_abstract(rng: &mut Rng, cfg: &GenCfg) -> Abstract {
         }
     }
 
+    let no_beacons = preds.iter().any(|p| p.alias.iter().any(|a| a.is_some()) || p.roles.iter().any(|r| matches!(r, Role::Fill { .. })));
     Abstract {
         contracts,
         pre,
@@ -457,7 +483,11 @@ pub fn gen_abstract(rng: &mut Rng, cfg: &GenCfg) -> Abstract {
         shape: format!("{cfg:?}"),
         // op soup can end a program early (Halt, ComputeEnd, jumps) or run parts of it in
         // compute children: begin/end beacons would misreport such nodes
-        beacons: cfg.beacons && !cfg.soup,
+        // (… and a program shared by two nodes has one beacon key for both, and a node that
+        // fills its stack has no room for the closing beacon)
+        beacons: cfg.beacons
+            && !cfg.soup
+            && !no_beacons,
         decoy_seed: rng.next_u64(),
         stale_prelude: rng.chance(1, 3),
         prefix_prelude: rng.chance(1, 4),
@@ -524,6 +554,7 @@ fn read_ops(spec: &ReadSpec) -> Vec<Op> {
 /// The program of abstract node `a` of predicate `pi` (independent of any numbering).
 pub fn node_program(abs: &Abstract, pi: usize, a: usize) -> Vec<Op> {
     let p = &abs.preds[pi];
+    let a = p.alias.get(a).copied().flatten().unwrap_or(a);
     let t = tag(pi, a);
     let mut v = vec![PUSH(t), POP()];
     if abs.beacons {
@@ -624,6 +655,15 @@ pub fn node_program(abs: &Abstract, pi: usize, a: usize) -> Vec<Op> {
             }
             v.push(PEX());
             v.push(PUSH(t));
+        }
+        Role::Fill { stack, mem } => {
+            if *mem > 0 {
+                v.extend([PUSH(*mem as Word), ALOC(), POP()]);
+            }
+            if *stack > 0 {
+                // n-1 zeros plus the start index pushed by Reserve: n words
+                v.extend([PUSH(*stack as Word - 1), RES()]);
+            }
         }
         Role::Fail(k) => match k {
             0 => v.extend([PUSH(1), PNCIF()]),
